@@ -45,6 +45,11 @@ class C19(PureCheck):
             "whose texts are equal but run lists differ, or repr cases with >=1 formatted run")
     exhaustive = {"quick": False, "thorough": False}
 
+    def design_runs(self, tier):
+        cfg = ("SPECIFICATION Spec\nCONSTANT UVals = %s\nINVARIANT EqualStringsShowTheSame\nINVARIANT ReprRoundTrip\nCHECK_DEADLOCK FALSE\n"
+               % ("{0}" if tier == "quick" else "{0, 1, 2}"))
+        return [dict(module="MC_Eq", cfg=cfg, workers=8, timeout=3000)]
+
     def inputs(self, tier, rng):
         L = [l for l in layouts(2, 2, atts=ATTS)]
         n = 150 if tier == "quick" else 300
